@@ -104,6 +104,14 @@ def case(ctx, i):
     else:
         kinds = ["insert-member", "append-member", "remove-member", "change-member-type"]
     tname = None
+    # names of types from which the changed struct can be reached: a section matching one of those hides the sub-tree
+    # holding the change *legitimately*; "non matching" sections must match none of them
+    reaching = set()
+    for prog_ in (pr.p, pr.q):
+        for t in prog_.types:
+            nm = getattr(t, "name", None)
+            if nm and nm != sname and any(getattr(x, "name", None) == sname for x in prog_.reach(t)):
+                reaching.add(nm)
     if cls == "names-another-changed-struct":
         pr, why, tname = make_near_pair(ctx, rng, d, kinds)
     else:
@@ -121,10 +129,13 @@ def case(ctx, i):
         # (a member of S inserted / removed) is not a change of T and must stay reported
         lines.append("  name = %s" % tname)
     elif cls == "wrong-name":
-        other = [t.name for t in pr.p.types if isinstance(t, progen.Record) and t.name and t.name != sname]
+        other = [t.name for t in pr.p.types if isinstance(t, progen.Record) and t.name and t.name != sname and t.name not in reaching]
         lines.append("  name = %s" % (rng.choice(other) if other and rng.random() < 0.5 else sname + "x"))
     elif cls == "wrong-regexp":
-        lines.append("  name_regexp = %s" % rng.choice(["^%sx$" % sname, "^x%s" % sname, "^%s$" % sname[:-1], "^$", "^u_.*"]))
+        import re as _re
+        pats = ["^%sx$" % sname, "^x%s" % sname, "^%s$" % sname[:-1], "^$", "^u_nomatch_.*"]
+        pats = [x for x in pats if not any(_re.search(x, nm) for nm in reaching | {sname})]
+        lines.append("  name_regexp = %s" % rng.choice(pats))
     elif cls == "invalid-regexp":
         lines.append("  name_regexp = %s" % rng.choice(INVALID_RE))
     elif cls == "wrong-kind":
